@@ -32,23 +32,29 @@ structure Decomp (S K O : List (Pt α × Pt α)) : Prop where
   cr : ∀ q, crE S q = (crE K q != crE O q)
   on : ∀ q, onE S q = (onE K q || onE O q)
   d : ∀ h : Pt α → Bool, dE h S = (dE h K != dE h O)
+  w : ∀ q, wE S q = wE K q + wE O q
+  dz : ∀ P : Pt α → ℤ, dZ P S = dZ P K + dZ P O
 
-theorem Decomp.nil : Decomp ([] : List (Pt α × Pt α)) [] [] := ⟨fun _ => rfl, fun _ => rfl, fun _ => rfl⟩
+theorem Decomp.nil : Decomp ([] : List (Pt α × Pt α)) [] [] :=
+  ⟨fun _ => rfl, fun _ => rfl, fun _ => rfl, fun _ => rfl, fun _ => rfl⟩
 
 theorem Decomp.append {S K O S' K' O' : List (Pt α × Pt α)} (h : Decomp S K O) (h' : Decomp S' K' O') :
     Decomp (S ++ S') (K ++ K') (O ++ O') := by
-  refine ⟨fun q => ?_, fun q => ?_, fun g => ?_⟩
+  refine ⟨fun q => ?_, fun q => ?_, fun g => ?_, fun q => ?_, fun P => ?_⟩
   · rw [crE_append, crE_append, crE_append, h.cr, h'.cr]
     cases crE K q <;> cases crE O q <;> cases crE K' q <;> cases crE O' q <;> rfl
   · rw [onE_append, onE_append, onE_append, h.on, h'.on]
     cases onE K q <;> cases onE O q <;> cases onE K' q <;> cases onE O' q <;> rfl
   · rw [dE_append, dE_append, dE_append, h.d, h'.d]
     cases dE g K <;> cases dE g O <;> cases dE g K' <;> cases dE g O' <;> rfl
+  · rw [wE_append, wE_append, wE_append, h.w, h'.w]; ring
+  · rw [dZ_append, dZ_append, dZ_append, h.dz, h'.dz]; ring
 
 theorem Decomp.of_perm {S K O K' O' : List (Pt α × Pt α)} (h : Decomp S K O) (hk : K.Perm K') (ho : O.Perm O') :
     Decomp S K' O' :=
   ⟨fun q => by rw [h.cr, crE_perm hk, crE_perm ho], fun q => by rw [h.on, onE_perm hk, onE_perm ho],
-    fun g => by rw [h.d, dE_perm hk, dE_perm ho]⟩
+    fun g => by rw [h.d, dE_perm hk, dE_perm ho], fun q => by rw [h.w, wE_perm hk, wE_perm ho],
+    fun P => by rw [h.dz, dZ_perm hk, dZ_perm ho]⟩
 
 theorem crE_single (s e q : Pt α) : crE [(s, e)] q = crossesAbove s e q := by
   rw [crE_cons, crE_nil]; cases crossesAbove s e q <;> rfl
@@ -59,26 +65,36 @@ theorem onE_single (s e q : Pt α) : onE [(s, e)] q = onSeg s e q := by
 theorem dE_single (h : Pt α → Bool) (s e : Pt α) : dE h [(s, e)] = (h s != h e) := by
   rw [dE_cons, dE_nil]; cases (h s != h e) <;> rfl
 
+theorem wE_single (s e q : Pt α) : wE [(s, e)] q = sgnAbove s e q := by
+  rw [wE_cons, wE_nil, add_zero]
+
+theorem dZ_single (P : Pt α → ℤ) (s e : Pt α) : dZ P [(s, e)] = P e - P s := by
+  rw [dZ_cons, dZ_nil, add_zero]
+
 /-- cutting an edge at a point of the edge -/
 theorem decomp_cut {a i b : Pt α} (h : OnSeg a b i) : Decomp [(a, b)] [(i, b)] [(a, i)] := by
-  refine ⟨fun q => ?_, fun q => ?_, fun g => ?_⟩
+  refine ⟨fun q => ?_, fun q => ?_, fun g => ?_, fun q => ?_, fun P => ?_⟩
   · rw [crE_single, crE_single, crE_single, crossesAbove_split h q]
     cases crossesAbove a i q <;> cases crossesAbove i b q <;> rfl
   · rw [onE_single, onE_single, onE_single, onSeg_split h q, Bool.or_comm]
   · rw [dE_single, dE_single, dE_single]
     cases g a <;> cases g i <;> cases g b <;> rfl
+  · rw [wE_single, wE_single, wE_single, sgn_split h q]; ring
+  · rw [dZ_single, dZ_single, dZ_single]; ring
 
 theorem decomp_cut' {a i b : Pt α} (h : OnSeg a b i) : Decomp [(a, b)] [(a, i)] [(i, b)] := by
-  refine ⟨fun q => ?_, fun q => ?_, fun g => ?_⟩
+  refine ⟨fun q => ?_, fun q => ?_, fun g => ?_, fun q => ?_, fun P => ?_⟩
   · rw [crE_single, crE_single, crE_single, crossesAbove_split h q]
   · rw [onE_single, onE_single, onE_single, onSeg_split h q]
   · rw [dE_single, dE_single, dE_single]
     cases g a <;> cases g i <;> cases g b <;> rfl
+  · rw [wE_single, wE_single, wE_single, sgn_split h q]
+  · rw [dZ_single, dZ_single, dZ_single]; ring
 
 /-- a degenerate discarded edge can be dropped when its point is the start of a kept edge -/
 theorem decomp_drop_left {S K O : List (Pt α × Pt α)} {a b : Pt α} (h : Decomp S ((a, b) :: K) ((a, a) :: O)) :
     Decomp S ((a, b) :: K) O := by
-  refine ⟨fun q => ?_, fun q => ?_, fun g => ?_⟩
+  refine ⟨fun q => ?_, fun q => ?_, fun g => ?_, fun q => ?_, fun P => ?_⟩
   · rw [h.cr, crE_cons (a) (a), crossesAbove_self]
     cases crE O q <;> rfl
   · rw [h.on, onE_cons a a, onE_cons a b]
@@ -90,10 +106,12 @@ theorem decomp_drop_left {S K O : List (Pt α × Pt α)} {a b : Pt α} (h : Deco
       rw [onSeg_of_OnSeg (onSeg_left q b)]; simp
   · rw [h.d, dE_cons g a a]
     cases g a <;> cases dE g O <;> rfl
+  · rw [h.w, wE_cons a a, sgn_self, zero_add]
+  · rw [h.dz, dZ_cons P a a, sub_self, zero_add]
 
 theorem decomp_drop_right {S K O : List (Pt α × Pt α)} {a b : Pt α} (h : Decomp S ((a, b) :: K) ((b, b) :: O)) :
     Decomp S ((a, b) :: K) O := by
-  refine ⟨fun q => ?_, fun q => ?_, fun g => ?_⟩
+  refine ⟨fun q => ?_, fun q => ?_, fun g => ?_, fun q => ?_, fun P => ?_⟩
   · rw [h.cr, crE_cons (b) (b), crossesAbove_self]
     cases crE O q <;> rfl
   · rw [h.on, onE_cons b b, onE_cons a b]
@@ -105,6 +123,8 @@ theorem decomp_drop_right {S K O : List (Pt α × Pt α)} {a b : Pt α} (h : Dec
       rw [onSeg_of_OnSeg (onSeg_right a q)]; simp
   · rw [h.d, dE_cons g b b]
     cases g b <;> cases dE g O <;> rfl
+  · rw [h.w, wE_cons b b, sgn_self, zero_add]
+  · rw [h.dz, dZ_cons P b b, sub_self, zero_add]
 
 theorem reg_false_iff {box : Bound α} {q : Pt α} : Reg False box q ↔ InOpenBox box q :=
   ⟨fun h => h.elim id (fun h => h.1.elim), Or.inl⟩
@@ -127,7 +147,8 @@ theorem seg_decomp {box : Bound α} (hb : BoxOK box) (a b : Pt α) :
       intro t t0 t1 hin
       exact key.2 _ (onSeg_lerp a b t0 t1) (Or.inl hin)
     · rw [clipSeg_of_reject hr]
-      exact ⟨fun q => by simp [crE_nil], fun q => by simp [onE_nil], fun g => by simp [dE_nil]⟩
+      exact ⟨fun q => by simp [crE_nil], fun q => by simp [onE_nil], fun g => by simp [dE_nil],
+        fun q => by simp [wE_nil], fun P => by simp [dZ_nil]⟩
   · -- accepted: `[s, e]`
     rw [hr] at key
     obtain ⟨_, hia, hib, hoa, hob, _, _, hcomp⟩ := key
@@ -197,7 +218,7 @@ theorem seg_decomp {box : Bound α} (hb : BoxOK box) (a b : Pt α) :
     have D1 := decomp_cut hseg1
     have D2 := decomp_cut' hseg2
     have D : Decomp [(a, b)] [(lerp a b s, lerp a b e)] [(a, lerp a b s), (lerp a b e, b)] := by
-      refine ⟨fun q => ?_, fun q => ?_, fun g => ?_⟩
+      refine ⟨fun q => ?_, fun q => ?_, fun g => ?_, fun q => ?_, fun P => ?_⟩
       · rw [D1.cr, D2.cr]
         simp only [crE_cons, crE_nil]
         cases crossesAbove (lerp a b s) (lerp a b e) q <;> cases crossesAbove (lerp a b e) b q <;>
@@ -209,6 +230,10 @@ theorem seg_decomp {box : Bound α} (hb : BoxOK box) (a b : Pt α) :
       · rw [D1.d, D2.d]
         simp only [dE_cons, dE_nil]
         cases g a <;> cases g b <;> cases g (lerp a b s) <;> cases g (lerp a b e) <;> rfl
+      · rw [D1.w, D2.w]
+        simp only [wE_cons, wE_nil]; ring
+      · rw [D1.dz, D2.dz]
+        simp only [dZ_cons, dZ_nil]; ring
     show ∃ O : List (Pt α × Pt α), (∀ se ∈ O, OutE box se.1 se.2) ∧
       Decomp [(a, b)] [(lerp a b s, lerp a b e)] O
     by_cases ca : a = lerp a b s <;> by_cases cb : lerp a b e = b
@@ -303,7 +328,7 @@ theorem clipTail_shape (box : Bound α) (hl : LineSpec box) (r' : List (Pt α)) 
     (hf : r'.head? = some f) (hll : r'.getLast? = some f) (h2 : 2 ≤ r'.length) :
     ∃ out0 out1, Clip.line box true r' = some out0 ∧ clipTailD box r' = .ok out1 ∧
       (out1.flatMap Contains.chain).Perm (out0.flatMap Contains.chain) ∧
-      ((∀ ls ∈ out1, PieceOK box ls) ∨ (∃ p0, out1 = [p0] ∧ InsideRing box p0)) := by
+      ((∀ ls ∈ out1, PieceOK box ls) ∨ (∃ p0, out1 = [p0] ∧ InsideRing box p0 ∧ 2 ≤ p0.length)) := by
   obtain ⟨out, hline, hlen, hbox, hhead, hlast, hfirst, hend⟩ := hl r'
   unfold clipTailD
   rw [hline]
@@ -320,7 +345,8 @@ theorem clipTail_shape (box : Bound α) (hl : LineSpec box) (r' : List (Pt α)) 
     rcases eq_nil_or_snocD rest with rfl | ⟨mid, pl', rfl⟩
     · simp only [List.getLast?_singleton, Option.some.injEq] at hpl1
       subst hpl1
-      refine ⟨[p0], [p0], rfl, joinOuter_single box p0 f hpl2 _, List.Perm.refl _, Or.inr ⟨p0, rfl, ?_⟩⟩
+      refine ⟨[p0], [p0], rfl, joinOuter_single box p0 f hpl2 _, List.Perm.refl _,
+        Or.inr ⟨p0, rfl, ?_, hlen p0 List.mem_cons_self⟩⟩
       refine ⟨⟨?_, by rw [hp0, hpl2]⟩, ?_⟩
       · intro h; rw [h] at hp0; cases hp0
       · intro p hp; rw [hp0] at hp; cases hp; exact hfo
@@ -479,13 +505,15 @@ theorem partition_perm (box : Bound α) (all : List (List (Pt α))) : ∀ (op cl
       exact ⟨T, List.Perm.cons _ hT, hT2⟩
 
 theorem Decomp.move {S K X O : List (Pt α × Pt α)} (h : Decomp S (K ++ X) O) : Decomp S K (O ++ X) := by
-  refine ⟨fun q => ?_, fun q => ?_, fun g => ?_⟩
+  refine ⟨fun q => ?_, fun q => ?_, fun g => ?_, fun q => ?_, fun P => ?_⟩
   · rw [h.cr, Clip.C16R.crE_append, Clip.C16R.crE_append]
     cases Clip.C08R.crE K q <;> cases Clip.C08R.crE X q <;> cases Clip.C08R.crE O q <;> rfl
   · rw [h.on, Clip.C16R.onE_append, Clip.C16R.onE_append]
     cases Clip.C08R.onE K q <;> cases Clip.C08R.onE X q <;> cases Clip.C08R.onE O q <;> rfl
   · rw [h.d, Clip.C16R.dE_append, Clip.C16R.dE_append]
     cases Clip.C16R.dE g K <;> cases Clip.C16R.dE g X <;> cases Clip.C16R.dE g O <;> rfl
+  · rw [h.w, Clip.C16R.wE_append, Clip.C16R.wE_append]; ring
+  · rw [h.dz, Clip.C16R.dZ_append, Clip.C16R.dZ_append]; ring
 
 theorem ringClosed_spec (r : List (Pt α)) (h : ringClosed r = true) :
     4 ≤ r.length ∧ ∃ f, r.head? = some f ∧ r.getLast? = some f := by
@@ -560,7 +588,7 @@ theorem clipRings_decomp (box : Bound α) (hb : BoxOK box) (r : List (Pt α)) (h
       rw [hcr] at h'; cases h'; rfl
     cases this
     obtain ⟨hsub1, hsub2⟩ := partition_spec_aux box all op cl hpart
-    rcases hshape with hok | ⟨p0, rfl, hin⟩
+    rcases hshape with hok | ⟨p0, rfl, hin, _⟩
     · left
       refine ⟨?_, hop'⟩
       cases cl with
@@ -610,5 +638,85 @@ theorem clipRings_decomp (box : Bound α) (hb : BoxOK box) (r : List (Pt α)) (h
         simp only [List.length_cons] at hlen
         have : cl0 = [] := List.eq_nil_of_length_eq_zero (by omega)
         rw [this]
+
+/-! ### several rings (polygons, multi-polygons) -/
+
+theorem clipOne_decomp (box : Bound α) (hb : BoxOK box) (r : List (Pt α)) (hrc : ringClosed r = true) :
+    ∃ all O, clipOne box r = .ok all ∧ (∀ se ∈ O, OutE box se.1 se.2) ∧
+      Decomp (Contains.chain r) (all.flatMap Contains.chain) O ∧ ∀ ls ∈ all, 2 ≤ ls.length := by
+  obtain ⟨h4, f, hf, hlast⟩ := ringClosed_spec r hrc
+  have hne : r ≠ [] := by intro e; rw [e] at h4; simp at h4
+  have hemp : r.isEmpty = false := by
+    cases r with
+    | nil => exact absurd rfl hne
+    | cons a t => rfl
+  have hclosing : closingD box r = .ok r := by
+    unfold closingD; rw [hrc]; rfl
+  obtain ⟨out0, out1, hline, htail, hperm, hshape⟩ :=
+    clipTail_shape box (line_spec' box hb) r f hf hlast (by omega)
+  obtain ⟨O, hO, D⟩ := Clip.C16R.line_decomp (box := box) hb r out0 hline
+  refine ⟨out1, O, ?_, hO, D.of_perm hperm.symm (List.Perm.refl _), ?_⟩
+  · rw [clipOne_eq, hemp, hclosing]
+    simp only [Bool.false_eq_true, if_false, resD_ok_bind]
+    exact htail
+  · rcases hshape with hok | ⟨p0, rfl, _, h2⟩
+    · exact fun ls hls => (hok ls hls).1
+    · intro ls hls
+      rw [List.mem_singleton] at hls
+      subst hls; exact h2
+
+theorem clipAll_decomp (box : Bound α) (hb : BoxOK box) (rings : List (List (Pt α)))
+    (hrc : ∀ r ∈ rings, ringClosed r = true) :
+    ∃ all O, clipAll box rings = .ok all ∧ (∀ se ∈ O, OutE box se.1 se.2) ∧
+      Decomp (rings.flatMap Contains.chain) (all.flatMap Contains.chain) O ∧ ∀ ls ∈ all, 2 ≤ ls.length := by
+  induction rings with
+  | nil => exact ⟨[], [], rfl, by simp, Decomp.nil, by simp⟩
+  | cons r rest ih =>
+    obtain ⟨a, O1, ha, hO1, D1, l1⟩ := clipOne_decomp box hb r (hrc r List.mem_cons_self)
+    obtain ⟨b, O2, hb', hO2, D2, l2⟩ := ih (fun x hx => hrc x (List.mem_cons_of_mem _ hx))
+    refine ⟨a ++ b, O1 ++ O2, by simp [clipAll, ha, hb'], ?_, ?_, ?_⟩
+    · intro se hse
+      rcases List.mem_append.1 hse with h | h
+      · exact hO1 se h
+      · exact hO2 se h
+    · rw [List.flatMap_cons, List.flatMap_append]
+      exact D1.append D2
+    · intro ls hls
+      rcases List.mem_append.1 hls with h | h
+      · exact l1 ls h
+      · exact l2 ls h
+
+/-- `clipRings` of several rings, each closed in Go's sense: the edges of all the rings are the edges of
+    the open pieces and of the interior rings plus discarded edges avoiding the open box -/
+theorem clipRings_decomp_multi (box : Bound α) (hb : BoxOK box) (rings : List (List (Pt α)))
+    (hrc : ∀ r ∈ rings, ringClosed r = true) (op cl : List (List (Pt α)))
+    (h : clipRings box rings = .ok (op, cl)) :
+    (∃ O : List (Pt α × Pt α), (∀ se ∈ O, OutE box se.1 se.2) ∧
+      Decomp (rings.flatMap Contains.chain) ((op ++ cl).flatMap Contains.chain) O) ∧
+    (∀ ls ∈ op, PieceOK box ls) ∧ (∀ ls ∈ cl, InsideRing box ls ∧ 2 ≤ ls.length) := by
+  obtain ⟨all, O, hall, hO, D, hl2⟩ := clipAll_decomp box hb rings hrc
+  have hpart : partitionPieces box all = .ok (op, cl) := by
+    unfold clipRings at h
+    rw [hall] at h
+    exact h
+  obtain ⟨T, hT, hT2⟩ := partition_perm box all op cl hpart
+  obtain ⟨op', cl', hcr, hop', hcl'⟩ := clipRings_spec'' box hb rings
+  have : (op', cl') = (op, cl) := by
+    rw [hcr] at h; cases h; rfl
+  cases this
+  refine ⟨⟨O ++ T.flatMap Contains.chain, ?_, ?_⟩, hop', fun ls hls => ⟨hcl' ls hls, ?_⟩⟩
+  · intro se hse
+    rcases List.mem_append.1 hse with h' | h'
+    · exact hO se h'
+    · obtain ⟨t, ht, hse'⟩ := List.mem_flatMap.1 h'
+      obtain ⟨p, rfl, hp⟩ := hT2 t ht
+      simp only [Contains.chain, List.mem_singleton] at hse'
+      subst hse'
+      exact Clip.C16R.outE_self hp
+  · apply Decomp.move
+    refine D.of_perm ?_ (List.Perm.refl _)
+    rw [← List.flatMap_append]
+    exact List.Perm.flatMap_right _ hT.symm
+  · exact hl2 ls ((partition_spec_aux box all op cl hpart).2 ls hls).1
 
 end Orb.SmartClip
